@@ -52,27 +52,27 @@ ObjsC02 == [
   tx_a    |-> Obj("tx", "txraw", TxA(<<>>), "same", TRUE),
   tx_a1   |-> Obj("tx", "txraw", TxA(<<S1>>), "same", TRUE),
   tx_a2   |-> Obj("tx", "txraw", TxA(<<S2>>), "same", TRUE),
-  tx_a2r  |-> Obj("tx", "txraw", TxA(<<S2r>>), "same", FALSE),
+  tx_a2r  |-> Obj("tx", "txraw", TxA(<<S2r>>), "same", Tier # "quick"),
   tx_a12  |-> Obj("tx", "txraw", TxA(<<S1, S2>>), "same", Tier # "quick"),
   tx_b    |-> Obj("tx", "txraw", TxB(<<S3>>), "same", TRUE),
   tx_c    |-> Obj("tx", "txraw", TxC(<<S2>>), "same", Tier # "quick"),
   tx_d    |-> Obj("tx", "txraw", TxD(<<S1>>), "same", Tier # "quick"),
-  tx_16   |-> Obj("tx", "txraw", TxA(Sigs16), "same", FALSE),
+  tx_16   |-> Obj("tx", "txraw", TxA(Sigs16), "same", Tier # "quick"),
   tx_max  |-> Obj("tx", "txraw", TxBig(MaxTxSize - 58), "same", FALSE),
   tx_over |-> Obj("tx", "txraw", TxBig(MaxTxSize - 57), "reject", FALSE),
-  tx_src  |-> Obj("tx", "tx", TxA(<<S1>>), "same", FALSE),                       \* Deserialization(source) directly
+  tx_src  |-> Obj("tx", "tx", TxA(<<S1>>), "same", Tier # "quick"),                       \* Deserialization(source) directly
   tx_src_over |-> Obj("tx", "tx", TxBig(MaxTxSize - 57), "reject", FALSE),
   hdr_0   |-> Obj("header", "header", HdrV(Lit(32, 0), U32(0), <<>>, <<>>, <<>>), "same", TRUE),
   hdr_1   |-> Obj("header", "header", HdrV(Rnd(32, "txroot"), U32(7), Lit(300, 123), <<"p1", "p2", "s1", "e1">>, <<Sg(1), Sg(2), Sg(3)>>), "same", TRUE),
-  hdr_1r  |-> Obj("header", "header", HdrV(Rnd(32, "txroot"), U32(7), Lit(300, 123), <<"e1", "p1">>, <<Sg(9)>>), "same", FALSE),
+  hdr_1r  |-> Obj("header", "header", HdrV(Rnd(32, "txroot"), U32(7), Lit(300, 123), <<"e1", "p1">>, <<Sg(9)>>), "same", Tier # "quick"),
   hdr_2   |-> Obj("header", "header", HdrV(Rnd(32, "txroot"), F4(255), Lit(253, 0), <<"s1">>, <<Lit(65, 4)>>), "same", Tier # "quick"),
   blk_0   |-> Obj("block", "block", BlkV("", <<>>, <<>>, <<>>), "same", TRUE),
   blk_1   |-> Obj("block", "block", BlkV("a", <<"p1">>, <<Sg(1)>>, <<TxA(<<S1>>)>>), "same", TRUE),
   blk_2   |-> Obj("block", "block", BlkV("ab", <<"p1", "p2">>, <<Sg(1), Sg(2)>>, <<TxA(<<S2>>), TxB(<<S3>>)>>), "same", TRUE),
   blk_3   |-> Obj("block", "block", BlkV("abc", <<"p1">>, <<Sg(1)>>, <<TxA(<<>>), TxB(<<S3>>), TxC(<<S2>>)>>), "same", Tier # "quick"),
-  blk_dup  |-> Obj("block", "block", BlkV("aa", <<"p1">>, <<Sg(1)>>, <<TxA(<<S1>>), TxA(<<S1>>)>>), "reject", FALSE),
-  blk_dup2 |-> Obj("block", "block", BlkV("aba", <<"p1">>, <<Sg(1)>>, <<TxA(<<S1>>), TxB(<<S3>>), TxA(<<S2r>>)>>), "reject", FALSE),
-  blk_bad1 |-> Obj("block", "block", BlkV("ba", <<"p1">>, <<Sg(1)>>, <<TxA(<<S1>>), TxB(<<S3>>)>>), "reject", FALSE),
+  blk_dup  |-> Obj("block", "block", BlkV("aa", <<"p1">>, <<Sg(1)>>, <<TxA(<<S1>>), TxA(<<S1>>)>>), "reject", Tier # "quick"),
+  blk_dup2 |-> Obj("block", "block", BlkV("aba", <<"p1">>, <<Sg(1)>>, <<TxA(<<S1>>), TxB(<<S3>>), TxA(<<S2r>>)>>), "reject", Tier # "quick"),
+  blk_bad1 |-> Obj("block", "block", BlkV("ba", <<"p1">>, <<Sg(1)>>, <<TxA(<<S1>>), TxB(<<S3>>)>>), "reject", Tier # "quick"),
   blk_bad2 |-> Obj("block", "block", BlkV("a", <<"p1">>, <<Sg(1)>>, <<TxA(<<S1>>), TxB(<<S3>>)>>), "reject", FALSE),
   blk_bad3 |-> Obj("block", "block", BlkV("", <<"p1">>, <<Sg(1)>>, <<TxA(<<S1>>)>>), "reject", FALSE),
   blk_bad4 |-> Obj("block", "block", BlkV("ab", <<"p1">>, <<Sg(1)>>, <<TxA(<<S1>>)>>), "reject", FALSE)
